@@ -49,8 +49,15 @@ head = subprocess.check_output(["git","-C","/repo","rev-parse","--short","HEAD"]
 index = []
 for key,(what,needs) in sorted(DESC.items()):
     P,k = key.split("-")
-    log = f"/tmp/seedres-{P}-{k}.log"
-    src = f"/tmp/seed/{P}/out/change{k}"
+    root = os.environ.get("SEEDROOT", "/tmp/seed")
+    koff = int(os.environ.get("SEEDOFFSET", "0"))
+    if (int(k) <= koff) != (koff == 0) and koff:
+        continue
+    srck = int(k) - koff
+    if srck < 1:
+        continue
+    log = f"/tmp/seedres-{P}-{srck}.log"
+    src = f"{root}/{P}/out/change{srck}"
     if not os.path.exists(log) or not os.path.isdir(src):
         continue
     txt = open(log).read()
@@ -60,7 +67,7 @@ for key,(what,needs) in sorted(DESC.items()):
     clauses = sorted(set(re.findall(r"clause=([^ ]+(?: [^s][^ ]*)*?) sig=", txt)))
     dst = f"/verif/seeded/{key}"
     os.makedirs(dst, exist_ok=True)
-    applied = f"/tmp/seed-{P}-{k}.applied.diff"
+    applied = f"/tmp/seed-{P}-{srck}.applied.diff"
     shutil.copy(applied if os.path.exists(applied) else src+"/patch.diff", dst+"/patch.diff")
     for f in glob.glob(src+"/*_test.go")+glob.glob(src+"/NOTES.md"):
         shutil.copy(f, dst+"/"+os.path.basename(f).replace("_test.go","_test.go.txt"))
